@@ -7,7 +7,7 @@ import threading
 import time
 
 TOOL = 3          # coverage uses 1
-_state = {"on": False, "files": (), "prob": 0.0, "rng": None, "lock": threading.Lock(), "count": 0, "lines": 0, "max_sleep": 0.002}
+_state = {"on": False, "files": (), "prob": 0.0, "rng": None, "lock": threading.Lock(), "count": 0, "lines": 0, "max_sleep": 0.002, "delay_funcs": ()}
 
 
 def _line(code, lineno):
@@ -15,6 +15,13 @@ def _line(code, lineno):
     if not st["on"]:
         return sys.monitoring.DISABLE
     fn = code.co_filename
+    for suffix, name, dur in st["delay_funcs"]:
+        # named functions whose every line is delayed (e.g. the entry of a freshly started thread): widens one specific window
+        if code.co_name == name and fn.endswith(suffix):
+            with st["lock"]:
+                st["count"] += 1
+            time.sleep(dur)
+            return None
     if not fn.endswith(st["files"]):
         return sys.monitoring.DISABLE
     with st["lock"]:
@@ -31,10 +38,10 @@ def _line(code, lineno):
     return None
 
 
-def enable(files, prob, seed, max_sleep=0.002):
-    """files: tuple of filename suffixes, e.g. ('Pyro5/server.py',)"""
+def enable(files, prob, seed, max_sleep=0.002, delay_funcs=()):
+    """files: tuple of filename suffixes, e.g. ('Pyro5/server.py',); delay_funcs: (filename suffix, function name, seconds per line)"""
     mon = sys.monitoring
-    _state.update(on=True, files=tuple(files), prob=prob, rng=random.Random(seed), count=0, lines=0, max_sleep=max_sleep)
+    _state.update(on=True, files=tuple(files), prob=prob, rng=random.Random(seed), count=0, lines=0, max_sleep=max_sleep, delay_funcs=tuple(delay_funcs))
     try:
         mon.use_tool_id(TOOL, "verif-yield")
     except ValueError:
